@@ -1,0 +1,64 @@
+//go:build verif
+// +build verif
+
+// Exports for the verification harness (/verif, property C16). Add-only: nothing here is
+// compiled without the build tag `verif`, nothing rewrites existing behaviour.
+package syncer
+
+import (
+	"github.com/pingcap/kvproto/pkg/pdpb"
+	"github.com/tikv/pd/server/core"
+	"github.com/tikv/pd/server/kv"
+)
+
+// VerifHistory gives access to the unexported history buffer.
+type VerifHistory struct{ h *historyBuffer }
+
+// VerifNewHistoryBuffer is newHistoryBuffer.
+func VerifNewHistoryBuffer(size int, base kv.Base) *VerifHistory {
+	return &VerifHistory{h: newHistoryBuffer(size, base)}
+}
+
+// Record is (*historyBuffer).Record.
+func (v *VerifHistory) Record(r *core.RegionInfo) { v.h.Record(r) }
+
+// RecordsFrom is (*historyBuffer).RecordsFrom.
+func (v *VerifHistory) RecordsFrom(index uint64) []*core.RegionInfo { return v.h.RecordsFrom(index) }
+
+// ResetWithIndex is (*historyBuffer).ResetWithIndex.
+func (v *VerifHistory) ResetWithIndex(index uint64) { v.h.ResetWithIndex(index) }
+
+// GetNextIndex is (*historyBuffer).GetNextIndex.
+func (v *VerifHistory) GetNextIndex() uint64 { return v.h.GetNextIndex() }
+
+// FirstIndex is (*historyBuffer).firstIndex under the read lock.
+func (v *VerifHistory) FirstIndex() uint64 {
+	v.h.RLock()
+	defer v.h.RUnlock()
+	return v.h.firstIndex()
+}
+
+// VerifHistory returns the syncer's own history buffer.
+func (s *RegionSyncer) VerifHistory() *VerifHistory { return &VerifHistory{h: s.history} }
+
+// VerifStreamBound reports whether Sync has bound the stream of the named follower, i.e. whether
+// syncHistoryRegion has returned for it.
+func (s *RegionSyncer) VerifStreamBound(name string) bool {
+	s.mu.RLock()
+	defer s.mu.RUnlock()
+	_, ok := s.mu.streams[name]
+	return ok
+}
+
+// VerifSyncHistoryRegion is (*RegionSyncer).syncHistoryRegion.
+func (s *RegionSyncer) VerifSyncHistoryRegion(request *pdpb.SyncRegionRequest, stream pdpb.PD_SyncRegionsServer) error {
+	return s.syncHistoryRegion(request, stream)
+}
+
+// Constants the harness cross-checks against the translator's output.
+const (
+	VerifDefaultFlushCount        = defaultFlushCount
+	VerifMaxSyncRegionBatchSize   = maxSyncRegionBatchSize
+	VerifDefaultHistoryBufferSize = defaultHistoryBufferSize
+	VerifHistoryKey               = historyKey
+)
